@@ -4,7 +4,7 @@ the bytes of every statement, the image, and — because every statement address
 the addresses and the origin themselves.
 -/
 import CoCoVerif.Lemmas.RenameText
-import CoCoVerif.Lemmas.SizeFix
+import CoCoVerif.Lemmas.SizeValue
 
 namespace CoCo.Asm.Rename
 open CoCo
@@ -67,7 +67,7 @@ structure BackStages (ss0 : List Stmt) (a : Assembly) where
   hpcr : pcrLoop (ss2.length + 1) ss2 = .ok ss3
   horg : orgOK ss3 false = true
   haddr : assignAddrs ss3 0 = .ok ss4
-  hfix : fixAll ss4 0 ss4 = .ok a.stmts
+  hfix : fixAllL t ss4 = .ok a.stmts
   heval : evalSyms a.stmts t t = .ok t1
   hfinal : finalSymTab a.stmts t1 = .ok a.symtab
   horigin : a.origin = a.stmts.foldl (fun o s => if s.row.isOrigin then s.pkg.address else o) Value.none
@@ -97,7 +97,7 @@ theorem back_stages {ss0 : List Stmt} {a : Assembly} (h : back ss0 = .ok a) : No
           cases h6 : assignAddrs ss3 0 with
           | ok ss4 =>
             rw [h6] at h; dsimp only at h
-            cases h7 : fixAll ss4 0 ss4 with
+            cases h7 : fixAllL t ss4 with
             | ok ss5 =>
               rw [h7] at h; dsimp only at h
               cases h9 : evalSyms ss5 t t with
@@ -114,12 +114,79 @@ theorem back_stages {ss0 : List Stmt} {a : Assembly} (h : back ss0 = .ok a) : No
           | _ => rw [h6] at h; cases h
         | _ => rw [h5] at h; cases h
 
-/-! ### every address of a finished assembly is a number -/
+/-! ### every address of a finished assembly is a number
+
+(`rb_assignAddrs_all_numeric` and `rb_translatePseudo_org_numeric` are copies of `assignAddrs_all_numeric` and
+`translatePseudo_org_numeric` of Lemmas/SizeFix.lean, so that the renaming chain does not depend on the Size* chain.) -/
+
+theorem rb_assignAddrs_all_numeric : ∀ {l : List Stmt} {a : Nat} {l' : List Stmt}, assignAddrs l a = .ok l' →
+    (∀ s ∈ l, s.pkg.address = .none ∨ s.pkg.address.isNumeric = true) →
+    ∀ s' ∈ l', s'.pkg.address.isNumeric = true := by
+  intro l
+  induction l with
+  | nil => intro a l' h _ s' hs'; simp [assignAddrs] at h; subst h; simp at hs'
+  | cons s rest ih =>
+    intro a l' h hl s' hs'
+    rw [assignAddrs] at h
+    split at h
+    · cases hv : numV a with
+      | error e => rw [hv] at h; cases h
+      | ok v =>
+        rw [hv] at h
+        dsimp only at h
+        cases hr : assignAddrs rest (a + s.pkg.size) with
+        | ok r2 =>
+          rw [hr] at h
+          simp only [Outcome.ok.injEq] at h
+          subst h
+          rcases List.mem_cons.mp hs' with rfl | hs'
+          · exact numericOfInt_isNumeric' hv
+          · exact ih hr (fun x hx => hl x (by simp [hx])) s' hs'
+        | _ => rw [hr] at h; cases h
+    · rename_i hnn
+      cases hv : s.pkg.address.int? with
+      | none => rw [hv] at h; cases h
+      | some a' =>
+        rw [hv] at h
+        dsimp only at h
+        cases hr : assignAddrs rest (a' + s.pkg.size) with
+        | ok r2 =>
+          rw [hr] at h
+          simp only [Outcome.ok.injEq] at h
+          subst h
+          rcases List.mem_cons.mp hs' with rfl | hs'
+          · rcases hl s' (by simp) with h' | h'
+            · rw [h'] at hnn; simp [Value.isNone] at hnn
+            · exact h'
+          · exact ih hr (fun x hx => hl x (by simp [hx])) s' hs'
+        | _ => rw [hr] at h; cases h
+
+/-- the ORG branch of `translatePseudo`: the preset address is a number -/
+theorem rb_translatePseudo_org_numeric {o : Operand} {row : InstrRow} {p : Pkg} (hm : row.mnemonic = "ORG")
+    (h : translatePseudo o row = .ok p) : p.address.isNumeric = true := by
+  unfold translatePseudo at h
+  have e1 : (("ORG" : String) == "FCB") = false := by decide
+  have e2 : (("ORG" : String) == "FDB") = false := by decide
+  have e3 : (("ORG" : String) == "RMB") = false := by decide
+  have e4 : (("ORG" : String) == "ORG") = true := by decide
+  simp only [hm, e1, e2, e3, e4, bind, Except.bind, pure, Except.pure, throw, throwThe, MonadExceptOf.throw,
+    Bool.false_eq_true, if_false, if_true] at h
+  split at h
+  · cases h
+  · split at h
+    · cases h
+    · rename_i hcond
+      cases h
+      have hnum : o.value.isNumeric = true := by
+        cases hn : o.value.isNumeric with
+        | true => rfl
+        | false => simp [hn] at hcond
+      exact hnum
 
 theorem translatePseudo_addr {o : Operand} {row : InstrRow} {p : Pkg} (h : translatePseudo o row = .ok p) :
     p.address = .none ∨ p.address.isNumeric = true := by
   by_cases hm : (row.mnemonic == "ORG") = true
-  · exact .inr (translatePseudo_org_numeric (by simpa using hm) h)
+  · exact .inr (rb_translatePseudo_org_numeric (by simpa using hm) h)
   · exact .inl (translatePseudo_AN o row (by simpa using hm) p h)
 
 theorem translateOperand_addr {o : Operand} {row : InstrRow} {p : Pkg} (h : translateOperand o row = .ok p) :
@@ -146,10 +213,10 @@ theorem back_addr_numeric {ss0 : List Stmt} {a : Assembly} (h : back ss0 = .ok a
     obtain ⟨s1, hs1, p, hp, e2⟩ := (translateAll_pw st.htranslate).get' hs2
     rw [e3, e2]
     exact translateOperand_addr (p := p) hp
-  have h4 := assignAddrs_all_numeric st.haddr h3
+  have h4 := rb_assignAddrs_all_numeric st.haddr h3
   intro s hs
   obtain ⟨j, hj⟩ := List.getElem?_of_mem hs
-  obtain ⟨s4, hs4, v, e⟩ := (fixAll_pw st.hfix).get' hj
+  obtain ⟨s4, hs4, v, e⟩ := (fixAllL_pw st.hfix).get' hj
   rw [e]
   exact h4 s4 (List.mem_of_getElem? hs4)
 
